@@ -29,6 +29,7 @@ type c06Scenario struct {
 	Flood      bool `json:"flood"`
 	UseCtx     bool `json:"use_ctx"`
 	CtxDialer  bool `json:"ctx_dialer"`
+	ViaTo      bool `json:"via_connect_to"` // ConnectTo / ConnectToContext instead of Connect / ConnectContext
 
 	Negative string `json:"negative"` // "", noserver, dialerror, cancelled, close_unconnected
 	Lines    int    `json:"lines"`
@@ -55,6 +56,7 @@ func genC06(t *rapid.T) *c06Scenario {
 		Flood:      rapid.IntRange(0, 3).Draw(t, "flood") > 0,
 		UseCtx:     rapid.Bool().Draw(t, "use_ctx"),
 		CtxDialer:  rapid.Bool().Draw(t, "ctx_dialer"),
+		ViaTo:      rapid.Bool().Draw(t, "via_connect_to"),
 		Welcome:    -1,
 		Cycles:     rapid.SampledFrom([]int{1, 1, 1, 2}).Draw(t, "cycles"),
 	}
@@ -184,12 +186,7 @@ func runC06(sc *c06Scenario) *Violation {
 		case "cancelled":
 			cancel()
 		}
-		var err error
-		if sc.UseCtx {
-			err = tc.C.ConnectContext(ctx)
-		} else {
-			err = tc.C.Connect()
-		}
+		err := c06Connect(tc, sc, ctx)
 		if err == nil {
 			tc.C.Close()
 			return fail("Connect (%s) returned nil", sc.Negative)
@@ -241,12 +238,7 @@ func runC06(sc *c06Scenario) *Violation {
 			released.Store(true) // a pre-armed fault may begin the disconnect at any time
 		}
 		ctx, cancel := context.WithCancel(context.Background())
-		var err error
-		if sc.UseCtx {
-			err = tc.C.ConnectContext(ctx)
-		} else {
-			err = tc.C.Connect()
-		}
+		err := c06Connect(tc, sc, ctx)
 		if err != nil {
 			cancel()
 			return fail("cycle %d: Connect: %v", cycle, err)
@@ -408,6 +400,20 @@ func runC06(sc *c06Scenario) *Violation {
 	return nil
 }
 
+// c06Connect uses one of the four public ways to connect.
+func c06Connect(tc *testClient, sc *c06Scenario, ctx context.Context) error {
+	host := tc.Cfg.Server
+	switch {
+	case sc.ViaTo && sc.UseCtx && host != "":
+		return tc.C.ConnectToContext(ctx, host)
+	case sc.ViaTo && host != "":
+		return tc.C.ConnectTo(host)
+	case sc.UseCtx:
+		return tc.C.ConnectContext(ctx)
+	}
+	return tc.C.Connect()
+}
+
 func (sc *c06Scenario) classes() (cls []string, nontrivial bool) {
 	if sc.Negative != "" {
 		return []string{"negative=" + sc.Negative}, true
@@ -433,7 +439,7 @@ func (sc *c06Scenario) classes() (cls []string, nontrivial bool) {
 	if len(sc.Reconnects) > 0 {
 		cls = append(cls, "connect_while_connected")
 	}
-	cls = append(cls, fmt.Sprintf("tracking=%v", sc.Tracking), fmt.Sprintf("pingfreq=%d", sc.PingFreqMS), fmt.Sprintf("flood=%v", sc.Flood), fmt.Sprintf("ctx=%v", sc.UseCtx))
+	cls = append(cls, fmt.Sprintf("tracking=%v", sc.Tracking), fmt.Sprintf("pingfreq=%d", sc.PingFreqMS), fmt.Sprintf("flood=%v", sc.Flood), fmt.Sprintf("ctx=%v", sc.UseCtx), fmt.Sprintf("via_connect_to=%v", sc.ViaTo))
 	hasClose := strings.Contains(strings.Join(sc.Endings, ","), "close")
 	nontrivial = len(sc.Endings) >= 2 || (hasClose && sc.Closers >= 2) || len(sc.Reconnects) > 0 || sc.ReadErrAt > 0 || sc.WriteErrAt > 0
 	return uniqStrings(cls), nontrivial
